@@ -8,13 +8,16 @@ round trips as explicit facts; `sm_round_trip_gsm` with none left), for text in 
 (`sm_round_trip_gsm_payload`) and WITH ANY LIST OF CONFORMANT OPTIONAL PARAMETERS in either case
 (`sm_round_trip_params`, `sm_round_trip_payload_params`, `sm_round_trip_gsm_params`,
 `sm_round_trip_gsm_payload_params`: induction through the TLV loop, the normalisations stated by `normal`);
-`time_facts_*` discharge the time hypotheses; a UDH (concatenation header inside the text) and codecs other
-than GSM 03.38 stay behind the explicit codec facts / the correspondence + round-trip predicate.
+`time_facts_*` discharge the time hypotheses; UCS2 text has no codec hypothesis left either (`sm_round_trip_ucs2_fallback`,
+`sm_round_trip_ucs2_fallback_payload`, `sm_round_trip_ucs2_default`: the UTF-16-BE round trip on scalar values is a lemma);
+a UDH (concatenation header inside the text) and the ascii / latin_1 / packed codecs stay behind the explicit codec
+facts / the correspondence + round-trip predicate.
 -/
 import SmppVerif.Lemmas.Pdu
 import SmppVerif.Lemmas.BindRound
 import SmppVerif.Lemmas.SmRead
 import SmppVerif.Lemmas.TlvRound
+import SmppVerif.Lemmas.SmUcs2
 
 namespace SmppVerif.Props.C03
 open SmppVerif SmppVerif.Pdu SmppVerif.Lemmas.Pdu
@@ -123,6 +126,59 @@ theorem sm_round_trip_gsm_payload (deliver : Bool) (m : Sm) (w : Lemmas.SmRead.S
     decode bytes encGsm = .ok (if deliver then Msg.deliverSm (Lemmas.SmRead.readBack m [] m.messagePayload .none .none encGsm)
                                else Msg.submitSm (Lemmas.SmRead.readBack m [] m.messagePayload .none .none encGsm)) :=
   Lemmas.SmRead.sm_round_trip_gsm_payload deliver m w bytes e hp henc hpre hshort heh htext hne hlen hudhi htime hst
+
+/-- UCS2 WITHOUT CODEC HYPOTHESES (the UTF-16-BE round trip on Unicode scalar values is a lemma, Lemmas/Split.lean): default
+    alphabet GSM 03.38, automatic encoding, a text that is NOT over the GSM alphabet - the encoder falls back to UCS2 and
+    announces data_coding 8; the decoder returns the text and names the encoding `ucs2`.  Any text of scalar values (astral
+    characters included, as surrogate pairs) whose UTF-16 form fits short_message. -/
+theorem sm_round_trip_ucs2_fallback (deliver : Bool) (m : Sm) (w : Lemmas.SmRead.SmRT m) (bytes : List Nat) (e : Option Enc)
+    (hp : pdu encGsm (if deliver then Msg.deliverSm m else Msg.submitSm m) = .ok (bytes, e))
+    (henc : m.encoding = none) (hpre : m.encoded = []) (hpay : m.messagePayload = [])
+    (heh : m.errorHandling = .mode .strict)
+    (hsc : ∀ c ∈ m.shortMessage, Lemmas.Split.Scalar c) (hnot : Gsm.isGsmText m.shortMessage = false)
+    (hlen : (Utf16.unitsToBytes (Lemmas.SmUcs2.units m.shortMessage)).length ≤ 254)
+    (hudhi : m.esmClass.toNat % 128 < 64)
+    (htime : m.schedule = .none ∧ m.validity = .none)
+    (hst : enumHas Gen.Enums.smppCommandStatus m.status = true) :
+    decode bytes encGsm = .ok (if deliver then Msg.deliverSm (Lemmas.SmRead.readBack m m.shortMessage [] .none .none encUcs2)
+                               else Msg.submitSm (Lemmas.SmRead.readBack m m.shortMessage [] .none .none encUcs2)) :=
+  Lemmas.SmUcs2.sm_round_trip_ucs2_fallback deliver m w bytes e hp henc hpre hpay heh hsc hnot hlen hudhi htime hst
+
+/-- … the same with the text in message_payload, up to 65535 octets … -/
+theorem sm_round_trip_ucs2_fallback_payload (deliver : Bool) (m : Sm) (w : Lemmas.SmRead.SmRT m) (bytes : List Nat) (e : Option Enc)
+    (hp : pdu encGsm (if deliver then Msg.deliverSm m else Msg.submitSm m) = .ok (bytes, e))
+    (henc : m.encoding = none) (hpre : m.encoded = []) (hshort : m.shortMessage = [])
+    (heh : m.errorHandling = .mode .strict)
+    (hsc : ∀ c ∈ m.messagePayload, Lemmas.Split.Scalar c) (hnot : Gsm.isGsmText m.messagePayload = false)
+    (hlen : (Utf16.unitsToBytes (Lemmas.SmUcs2.units m.messagePayload)).length < 65536)
+    (hudhi : m.esmClass.toNat % 128 < 64)
+    (htime : m.schedule = .none ∧ m.validity = .none)
+    (hst : enumHas Gen.Enums.smppCommandStatus m.status = true) :
+    decode bytes encGsm = .ok (if deliver then Msg.deliverSm (Lemmas.SmRead.readBack m [] m.messagePayload .none .none encUcs2)
+                               else Msg.submitSm (Lemmas.SmRead.readBack m [] m.messagePayload .none .none encUcs2)) :=
+  Lemmas.SmUcs2.sm_round_trip_ucs2_fallback_payload deliver m w bytes e hp henc hpre hshort heh hsc hnot hlen hudhi htime hst
+
+/-- … and with UCS2 as the configured default alphabet (data_coding 0 written and read with the default). -/
+theorem sm_round_trip_ucs2_default (deliver : Bool) (m : Sm) (w : Lemmas.SmRead.SmRT m) (bytes : List Nat) (e : Option Enc)
+    (hp : pdu encUcs2 (if deliver then Msg.deliverSm m else Msg.submitSm m) = .ok (bytes, e))
+    (henc : m.encoding = none) (hpre : m.encoded = []) (hpay : m.messagePayload = [])
+    (heh : m.errorHandling = .mode .strict)
+    (hsc : ∀ c ∈ m.shortMessage, Lemmas.Split.Scalar c) (hne : m.shortMessage ≠ [])
+    (hlen : (Utf16.unitsToBytes (Lemmas.SmUcs2.units m.shortMessage)).length ≤ 254)
+    (hudhi : m.esmClass.toNat % 128 < 64)
+    (htime : m.schedule = .none ∧ m.validity = .none)
+    (hst : enumHas Gen.Enums.smppCommandStatus m.status = true) :
+    decode bytes encUcs2 = .ok (if deliver then Msg.deliverSm (Lemmas.SmRead.readBack m m.shortMessage [] .none .none encUcs2)
+                                else Msg.submitSm (Lemmas.SmRead.readBack m m.shortMessage [] .none .none encUcs2)) :=
+  Lemmas.SmUcs2.sm_round_trip_ucs2_default deliver m w bytes e hp henc hpre hpay heh hsc hne hlen hudhi htime hst
+
+/-- non-vacuity of the text hypotheses: "жж😀" is a text of scalar values outside the GSM alphabet; its UTF-16 form has 8 octets -/
+example : (∀ c ∈ [0x436, 0x436, 0x1F600], Lemmas.Split.Scalar c) ∧ Gsm.isGsmText [0x436, 0x436, 0x1F600] = false ∧
+    (Utf16.unitsToBytes (Lemmas.SmUcs2.units [0x436, 0x436, 0x1F600])).length = 8 := by
+  refine ⟨?_, by decide +kernel, by decide +kernel⟩
+  intro c hc
+  simp only [List.mem_cons, List.mem_nil_iff, or_false] at hc
+  rcases hc with rfl | rfl | rfl <;> exact ⟨by decide, by decide⟩
 
 /-- The time hypotheses of `sm_round_trip_short` can be met for every absolute time of 2000–2099 with a
     quarter-hour offset and for every relative time up to 63 weeks (C17): the string written is a C-octet
@@ -242,6 +298,9 @@ end SmppVerif.Props.C03
 #print axioms SmppVerif.Props.C03.sm_round_trip_short
 #print axioms SmppVerif.Props.C03.sm_round_trip_gsm
 #print axioms SmppVerif.Props.C03.sm_round_trip_gsm_payload
+#print axioms SmppVerif.Props.C03.sm_round_trip_ucs2_fallback
+#print axioms SmppVerif.Props.C03.sm_round_trip_ucs2_fallback_payload
+#print axioms SmppVerif.Props.C03.sm_round_trip_ucs2_default
 #print axioms SmppVerif.Props.C03.time_facts_abs
 #print axioms SmppVerif.Props.C03.time_facts_rel
 #print axioms SmppVerif.Props.C03.sm_round_trip_params
